@@ -14,6 +14,7 @@ import (
 	"path/filepath"
 	"runtime/pprof"
 	"sort"
+	"sync"
 	"time"
 
 	cfgtypes "github.com/agglayer/aggkit/config/types"
@@ -61,6 +62,10 @@ func C06Config(prop string, r *Rand, tier string) map[string]int64 {
 	if r.Bool(15) {
 		c["w_rpcfault"], c["w_crash"], c["w_crashat"], c["w_diskfull"] = 0, 0, 0, 0
 	}
+	// a second subscriber of the same detector (as the L1 bridge syncer next to the L1 info syncer in the real node):
+	// a stub syncer that tracks blocks at its own pace and rewinds when told
+	c["second_sub"] = int64(r.Intn(2))
+	c["w_track2"] = int64(r.Range(5, 18))
 	return c
 }
 
@@ -159,6 +164,45 @@ func runC06(tr *Trace, sc *Script, rec *Recorder, scratch string) *Violation {
 			repeatDelivered[num] = true
 		}
 	}
+	// the second subscriber: what it has stored (durable: survives restarts) and how often it was told to rewind
+	var sub2mu sync.Mutex
+	var sub2stored, sub2image []storedBlock
+	sub2on := cfg["second_sub"] == 1
+	subscribe2 := func(ctx context.Context, rd *reorgdetector.ReorgDetector) *Violation {
+		if !sub2on {
+			return nil
+		}
+		sub, err := rd.Subscribe("second")
+		if err != nil {
+			return &Violation{Oracle: "harness", Detail: "Subscribe(second): " + err.Error()}
+		}
+		go func() {
+			for {
+				select {
+				case <-ctx.Done():
+					return
+				case first := <-sub.ReorgedBlock:
+					sub2mu.Lock()
+					k := 0
+					for _, sb := range sub2stored {
+						if sb.Num < first {
+							sub2stored[k] = sb
+							k++
+						}
+					}
+					sub2stored = sub2stored[:k]
+					sub2mu.Unlock()
+					rec.Stats.Inc("second_subscriber_rewinds")
+					select {
+					case sub.ReorgProcessed <- true:
+					case <-ctx.Done():
+						return
+					}
+				}
+			}
+		}()
+		return nil
+	}
 	reorgEventsAtStart := int64(0)
 	start := func(subFirst bool) *Violation {
 		w.BeginSetup()
@@ -181,6 +225,9 @@ func runC06(tr *Trace, sc *Script, rec *Recorder, scratch string) *Violation {
 			if err := mk(); err != nil {
 				return &Violation{Oracle: "harness", Detail: "l1infotreesync.New: " + err.Error()}
 			}
+			if v := subscribe2(ctx, n.rd); v != nil {
+				return v
+			}
 			if err := n.rd.Start(ctx); err != nil {
 				return &Violation{Oracle: "harness", Detail: "rd.Start: " + err.Error()}
 			}
@@ -190,6 +237,9 @@ func runC06(tr *Trace, sc *Script, rec *Recorder, scratch string) *Violation {
 			}
 			if err := mk(); err != nil {
 				return &Violation{Oracle: "harness", Detail: "l1infotreesync.New: " + err.Error()}
+			}
+			if v := subscribe2(ctx, n.rd); v != nil {
+				return v
 			}
 		}
 		vp := l1infotreesync.VerifProcessorOf(n.syncer)
@@ -257,7 +307,7 @@ func runC06(tr *Trace, sc *Script, rec *Recorder, scratch string) *Violation {
 			defer ArmFault(rdPath, p)
 		}
 		if db, err := sql.Open("sqlite3", "file:"+rdPath+"?mode=ro"); err == nil {
-			if rows, err := db.Query("SELECT num, hash FROM tracked_block"); err == nil {
+			if rows, err := db.Query("SELECT num, hash FROM tracked_block WHERE subscriber_id != 'second'"); err == nil {
 				for rows.Next() {
 					var n uint64
 					var h string
@@ -343,11 +393,17 @@ func runC06(tr *Trace, sc *Script, rec *Recorder, scratch string) *Violation {
 		os.RemoveAll(imgDir)
 		_ = CopyDBFiles(storePath, filepath.Join(imgDir, filepath.Base(storePath)))
 		_ = CopyDBFiles(rdPath, filepath.Join(imgDir, filepath.Base(rdPath)))
+		sub2mu.Lock()
+		sub2image = append([]storedBlock(nil), sub2stored...)
+		sub2mu.Unlock()
 		imgTaken = true
 	}
 	gen := func(r *Rand) (Op, bool) {
 		labels := w.ParkedLabels()
-		wts := []int{int(cfg["w_mine"]), int(cfg["w_fork"]), int(cfg["w_fin"]), int(cfg["w_rel"]), int(cfg["w_time"]), int(cfg["w_rpcfault"]), int(cfg["w_crash"]), int(cfg["w_crashat"]), int(cfg["w_diskfull"])}
+		wts := []int{int(cfg["w_mine"]), int(cfg["w_fork"]), int(cfg["w_fin"]), int(cfg["w_rel"]), int(cfg["w_time"]), int(cfg["w_rpcfault"]), int(cfg["w_crash"]), int(cfg["w_crashat"]), int(cfg["w_diskfull"]), 0}
+		if sub2on {
+			wts[9] = int(cfg["w_track2"])
+		}
 		if imgArmed != "" || diskFull {
 			wts[7] = 0
 		}
@@ -403,6 +459,8 @@ func runC06(tr *Trace, sc *Script, rec *Recorder, scratch string) *Violation {
 				fm = replyDeadline
 			}
 			return Op{K: "rel", S: labels[r.Intn(len(labels))], A: []int64{fm}}, true
+		case 9:
+			return Op{K: "track2", A: []int64{int64(r.Range(1, 6))}}, true
 		case 8:
 			return Op{K: "diskfull"}, true
 		case 7:
@@ -433,6 +491,9 @@ func runC06(tr *Trace, sc *Script, rec *Recorder, scratch string) *Violation {
 			stop()
 			_ = CopyDBFiles(filepath.Join(imgDir, filepath.Base(storePath)), storePath)
 			_ = CopyDBFiles(filepath.Join(imgDir, filepath.Base(rdPath)), rdPath)
+			sub2mu.Lock()
+			sub2stored = append([]storedBlock(nil), sub2image...)
+			sub2mu.Unlock()
 			crashed = true
 			rec.Stats.Inc("crash_restart")
 			rec.Stats.Inc("crash_at_statement_image")
@@ -480,6 +541,32 @@ func runC06(tr *Trace, sc *Script, rec *Recorder, scratch string) *Violation {
 				rec.Stats.Inc("forks_shortening")
 			}
 			rec.Step(fmt.Sprintf("K%d.%d", d, op.Arg(2)))
+		case "track2":
+			// the second syncer processes its next blocks: hands each not yet final one to the detector, then stores it
+			for i := int64(0); i < op.Arg(0); i++ {
+				sub2mu.Lock()
+				next := uint64(1)
+				if len(sub2stored) > 0 {
+					next = sub2stored[len(sub2stored)-1].Num + 1
+				}
+				sub2mu.Unlock()
+				if next > chain.HeadNum() {
+					break
+				}
+				b := chain.Canon[next]
+				if next > floor() {
+					if err := node.rd.AddBlockToTrack(node.ctx, "second", next, b.Hash); err != nil {
+						rec.Stats.Inc("second_subscriber_track_errors")
+						break
+					}
+				}
+				sub2mu.Lock()
+				sub2stored = append(sub2stored, storedBlock{Num: next, Hash: b.Hash})
+				sub2mu.Unlock()
+				rec.Stats.Inc("second_subscriber_blocks")
+			}
+			w.Quiesce()
+			rec.Step("T2")
 		case "fin":
 			chain.snapshotPrev()
 			chain.Finalized = min(chain.Finalized+uint64(op.Arg(0)), chain.HeadNum())
@@ -714,6 +801,34 @@ func runC06(tr *Trace, sc *Script, rec *Recorder, scratch string) *Violation {
 	}
 	if replacedEver {
 		rec.Stats.Inc("runs_with_replaced_processed_block")
+	}
+	// the second subscriber: every block it stores that the chain has replaced must be reported to it (the chain is
+	// static and final up to its head: a few more detector periods are granted)
+	if sub2on {
+		stale := func() (uint64, bool) {
+			sub2mu.Lock()
+			defer sub2mu.Unlock()
+			for _, sb := range sub2stored {
+				if !chain.IsCanonical(sb.Num, sb.Hash) {
+					return sb.Num, true
+				}
+			}
+			return 0, false
+		}
+		for i := 0; i < 400; i++ {
+			if _, bad := stale(); !bad {
+				break
+			}
+			ps := w.Parked()
+			if len(ps) > 0 {
+				w.Release(ps[i%len(ps)], replyOK)
+			} else {
+				w.Advance(time.Duration(cfg["reorg_ms"]) * time.Millisecond)
+			}
+		}
+		if n, bad := stale(); bad {
+			return &Violation{Oracle: "convergence", Sig: "c06/second-subscriber-not-rewound", Detail: fmt.Sprintf("the second subscriber of the detector still stores block %d of a dropped fork: it handed the block to the detector when it processed it, the chain has stopped changing, and it was never told to rewind", n)}
+		}
 	}
 	return nil
 }
